@@ -27,6 +27,11 @@ pub fn run(ctx: &Ctx) -> Outcome {
     for (lm, path, em, r) in grid {
         run_and_report(ctx, &mtu(ctx.tier, lm, path, em, r, d), &mut out);
     }
+    // small writes: short segments on the slots where a probe is due, lost together with their retransmission
+    for r in [0usize, 1] {
+        run_and_report(ctx, &nagle_mtu(ctx.tier, true, r, ctx.tier.pick(6, 8)), &mut out);
+    }
+    run_and_report(ctx, &nagle_mtu(ctx.tier, false, 0, ctx.tier.pick(6, 8)), &mut out);
     out.merge(crate::props::c01::mtu_family(ctx));
     out.rule = "C14: all link MTUs x all true path limits on the real SegmentSizes; explicit-state BFS of one connection on probing paths (blackhole / EMSGSIZE / peer payload sizes); end-to-end blackhole family over two real sockets".into();
     out
